@@ -381,6 +381,19 @@ def r07_4_composite_pairing(ctx: Ctx) -> RuleResult:
             rr.ok({"lookup": unparse(by_position[0])[:80], "by": "loop position"})
     else:
         rr.fail(ffp.qual, "the pattern used for formatting is not the one at the position of the accepting predicate", ffp.loc)
+    # format() and append_format() must pick the SAME pattern: every other method of the composite that walks the predicates itself
+    # (instead of delegating to the lookup) has to walk them last-added-first as well
+    for m in sorted(comp.all_defs, key=lambda g: g.qual):
+        if isinstance(m.node, ast.Lambda) or m is ffp or m.name == "__init__":
+            continue
+        loops = [l for l in own_nodes(m.node) if isinstance(l, (ast.For, ast.comprehension)) and "format_predicates" in unparse(l.iter)]
+        for l in loops:
+            rr.inst()
+            it = unparse(l.iter)
+            if "reversed(" in it or (isinstance(l.iter, ast.Call) and unparse(l.iter.func) == "range" and len(l.iter.args) == 3 and unparse(l.iter.args[2]) == "-1" and unparse(l.iter.args[1]) == "-1"):
+                rr.ok({"method": m.qual, "walk": it[:60]})
+            else:
+                rr.fail(m.qual, f"`for ... in {it[:70]}` walks the predicates first-added-first: this method then writes the text of a different pattern from format(), which uses the LAST added pattern that accepts the value (`+05:30:00` where format() gives `+05:30`)", ctx.loc(m, l.iter))
     # the two parallel lists are filled pairwise at every construction site
     for f in M.funcs.values():
         if not f.mod.rel.startswith(TEXT) or isinstance(f.node, ast.Lambda):
